@@ -257,8 +257,13 @@ COMBINATORS = {
     O_ + "::unwrap_or_else": dict(adt=O_, on="None", arg="none", res="raw", other="payload"),
     O_ + "::or_else": dict(adt=O_, on="None", arg="none", res="raw", other=("wrap", O_, "Some")),
     O_ + "::inspect": dict(adt=O_, on="Some", arg="ref", res="self", other="self"),
+    O_ + "::is_some_and": dict(adt=O_, on="Some", arg="value", res="raw", other=("const", "bool", 0)),
+    O_ + "::is_none_or": dict(adt=O_, on="Some", arg="value", res="raw", other=("const", "bool", 1)),
+    R_ + "::is_ok_and": dict(adt=R_, on="Ok", arg="value", res="raw", other=("const", "bool", 0)),
+    O_ + "::map_or": None,
+    "core::bool::then": dict(adt="bool", on="true", arg="none", res=("wrap", O_, "Some"), other=("unit", O_, "None")),
 }
-VARIANTS = {R_: ("Ok", "Err"), O_: ("None", "Some")}
+VARIANTS = {R_: ("Ok", "Err"), O_: ("None", "Some"), "bool": ("false", "true")}
 
 
 def _single_def(f, l):
@@ -303,12 +308,12 @@ def lower_candidates(prog, f):
     out = []
     for b, t in f.calls():
         spec = COMBINATORS.get(callee_skey(t) or "")
-        if spec is None or t.get("to") is None or len(t["args"]) != 2:
+        if not spec or t.get("to") is None or len(t["args"]) != 2:
             continue
         x, c = t["args"]
         if x.get("k") != "move" or x["pl"]["p"] or c.get("k") != "move" or c["pl"]["p"]:
             continue
-        if not f.locals[x["pl"]["l"]].startswith(spec["adt"] + "<"):
+        if not (f.locals[x["pl"]["l"]].startswith(spec["adt"] + "<") or (spec["adt"] == "bool" and f.locals[x["pl"]["l"]] == "bool")):
             continue
         d = _single_def(f, c["pl"]["l"])
         if d is None or d.get("s") != "=" or d["rv"].get("r") != "agg" or not d["rv"].get("closure"):
@@ -339,7 +344,7 @@ def _lower(d, bidx, spec, g, cl, f_locals):
     xty = d["locals"][x["l"]]
     targs = _type_args(xty)
     vidx = {v: i for i, v in enumerate(VARIANTS[adt])}
-    payload_ty = {"Ok": targs[0] if targs else "", "Err": targs[1] if len(targs) > 1 else "", "Some": targs[0] if targs else "", "None": ""}
+    payload_ty = {"Ok": targs[0] if targs else "", "Err": targs[1] if len(targs) > 1 else "", "Some": targs[0] if targs else "", "None": "", "true": "", "false": ""}
     on = spec["on"]
     oth = [v for v in VARIANTS[adt] if v != on][0]
 
@@ -355,6 +360,11 @@ def _lower(d, bidx, spec, g, cl, f_locals):
 
     def agg(a, variant, ops):
         return {"r": "agg", "adt": a, "variant": variant, "fields": ["0"] if ops else [], "ops": ops}
+    def rewrap(variant):
+        """x itself, on an arm where its variant is known: written as that variant of its payload, so that what follows sees which it is"""
+        if adt == "bool" or variant == "None":
+            return agg(adt, variant, []) if adt != "bool" else {"r": "use", "a": {"k": "const", "c": {"ty": "bool", "v": 1 if variant == "true" else 0}}}
+        return agg(adt, variant, [{"k": "move", "pl": payload(variant)}])
     dl = new_local("isize")
     off = len(d["locals"])
     base = len(d["blocks"])
@@ -364,8 +374,11 @@ def _lower(d, bidx, spec, g, cl, f_locals):
         _remap_place(npl, off)
         d["names"].append([n, npl])
     b_on, b_oth = base + len(g.blocks), base + len(g.blocks) + 1
-    blk["st"].append(stmt({"l": dl, "p": []}, {"r": "discr", "pl": {"l": x["l"], "p": []}}))
-    blk["term"] = {"t": "switch", "discr": {"k": "move", "pl": {"l": dl, "p": []}}, "arms": [[vidx[on], b_on]], "otherwise": b_oth, "sp": sp}
+    if adt == "bool":
+        blk["term"] = {"t": "switch", "discr": {"k": "move", "pl": {"l": x["l"], "p": []}}, "arms": [[0, b_oth]], "otherwise": b_on, "sp": sp}
+    else:
+        blk["st"].append(stmt({"l": dl, "p": []}, {"r": "discr", "pl": {"l": x["l"], "p": []}}))
+        blk["term"] = {"t": "switch", "discr": {"k": "move", "pl": {"l": dl, "p": []}}, "arms": [[vidx[on], b_on]], "otherwise": b_oth, "sp": sp}
     # the closure body
     inl_err = []
     for gb in g.blocks:
@@ -380,7 +393,7 @@ def _lower(d, bidx, spec, g, cl, f_locals):
             if spec["res"] == "raw":
                 nb["st"].append(stmt(copy.deepcopy(dest), {"r": "use", "a": r}))
             elif spec["res"] == "self":
-                nb["st"].append(stmt(copy.deepcopy(dest), {"r": "use", "a": {"k": "move", "pl": {"l": x["l"], "p": []}}}))
+                nb["st"].append(stmt(copy.deepcopy(dest), rewrap(on)))
             else:
                 nb["st"].append(stmt(copy.deepcopy(dest), agg(spec["res"][1], spec["res"][2], [r])))
             nb["term"] = {"t": "goto", "to": to, "sp": gb.tsp}
@@ -400,9 +413,11 @@ def _lower(d, bidx, spec, g, cl, f_locals):
     # the other arm
     o = spec["other"]
     if o == "self":
-        st_o = [stmt(copy.deepcopy(dest), {"r": "use", "a": {"k": "move", "pl": {"l": x["l"], "p": []}}})]
+        st_o = [stmt(copy.deepcopy(dest), rewrap(oth))]
     elif o == "payload":
         st_o = [stmt(copy.deepcopy(dest), {"r": "use", "a": {"k": "move", "pl": payload(oth)}})]
+    elif o[0] == "const":
+        st_o = [stmt(copy.deepcopy(dest), {"r": "use", "a": {"k": "const", "c": {"ty": o[1], "v": o[2]}}})]
     elif o[0] == "unit":
         st_o = [stmt(copy.deepcopy(dest), agg(o[1], o[2], []))]
     else:
@@ -423,7 +438,7 @@ def _known_value(st, r):
     if rv.get("r") == "use" and rv["a"].get("k") == "const" and isinstance(rv["a"]["c"].get("v"), int):
         return ("int", rv["a"]["c"]["v"])
     if rv.get("r") == "agg" and (rv.get("adt"), rv.get("variant")) in _VARIANT_DISCR:
-        return ("variant", _VARIANT_DISCR[(rv.get("adt"), rv.get("variant"))])
+        return ("variant", _VARIANT_DISCR[(rv.get("adt"), rv.get("variant"))], rv.get("adt"))
     return None
 
 
@@ -548,6 +563,39 @@ def _thread_known_gotos(d, start=0):
             continue
         tb = d["blocks"][ti]
         tt = tb["term"]
+        if tt["t"] == "call" and re.search(r"Try>?::branch$", tt.get("callee") or tt.get("decl") or "") and tt.get("to") is not None and \
+                len(tt["args"]) == 1 and tt["args"][0].get("k") == "move" and not tt["args"][0]["pl"]["p"] and not tt["dest"]["p"]:
+            # `L = Ok(..) / Err(..); goto T;  T: c = branch(move L) -> T2;  T2: d = discriminant(c); switch d`  (the `?` operator)
+            tested = tt["args"][0]["pl"]["l"]
+            if any(x.get("s") == "=" and x["lhs"]["l"] == tested for x in tb["st"]):
+                continue
+            known = None
+            for x in a["st"]:
+                if x.get("s") == "=" and x["lhs"]["l"] == tested:
+                    known = _known_value(x, tested)
+            if known is None or known[0] != "variant":
+                continue
+            t2 = d["blocks"][tt["to"]]
+            t2t = t2["term"]
+            c = tt["dest"]["l"]
+            if t2t["t"] != "switch" or t2t["discr"].get("k") not in ("copy", "move") or t2t["discr"]["pl"]["p"]:
+                continue
+            d2 = t2t["discr"]["pl"]["l"]
+            if not any(x.get("s") == "=" and x["lhs"]["l"] == d2 and x["rv"].get("r") == "discr" and x["rv"]["pl"]["l"] == c and not x["rv"]["pl"]["p"] for x in t2["st"]):
+                continue
+            good = (known[2] == R_ and known[1] == 0) or (known[2] == O_ and known[1] == 1)
+            cf = 0 if good else 1        # ControlFlow::Continue = 0, Break = 1
+            target = None
+            for v, b_ in t2t["arms"]:
+                if v == cf:
+                    target = b_
+            if target is None:
+                target = t2t["otherwise"]
+            n2 = len(d["blocks"]) + 1
+            d["blocks"].append({"st": copy.deepcopy(tb["st"]), "term": dict(copy.deepcopy(tt), to=n2), "cleanup": tb.get("cleanup", False), "tsp": tb.get("tsp")})
+            d["blocks"].append({"st": copy.deepcopy(t2["st"]), "term": {"t": "goto", "to": target, "sp": t2t.get("sp")}, "cleanup": t2.get("cleanup", False), "tsp": t2.get("tsp")})
+            a["term"] = dict(a["term"], to=n2 - 1)
+            continue
         if tt["t"] != "switch" or tt["discr"].get("k") not in ("copy", "move") or tt["discr"]["pl"]["p"]:
             continue
         dl = tt["discr"]["pl"]["l"]
